@@ -285,3 +285,49 @@ Proof.
   - intros i Hi. apply del_chunks_gone. unfold chunk_count in *. change TOAST_CHUNK_SIZE with 4000 in *. lia.
   - eauto.
 Qed.
+
+(* ---------------------------------------------------------------- which keys a write adds, which a delete leaves *)
+Lemma write_keys : forall cs m cid seq m' ok, 0 <= seq -> seq + Z.of_nat (length cs) <= 2 ^ 32 ->
+  write_chunks m cid seq cs = (m', ok) ->
+  forall k x, m' k = Some x -> m k = Some x \/ (fst k = cid /\ seq <= snd k < seq + Z.of_nat (length cs)).
+Proof.
+  induction cs as [|c t IH]; intros m cid seq m' ok Hs Hl H k x Hk; cbn [write_chunks] in H.
+  - injection H as <- <-. now left.
+  - cbn [length] in Hl |- *. rewrite Nat2Z.inj_succ in Hl |- *. rewrite wrap_u_small in H by lia.
+    destruct (m (cid, seq)) eqn:E.
+    + injection H as <- <-. now left.
+    + assert (0 <= seq + 1) as H1 by lia. assert (seq + 1 + Z.of_nat (length t) <= 2 ^ 32) as H2 by lia.
+      destruct (IH (tupd m (cid, seq) c) cid (seq + 1) m' ok H1 H2 H k x Hk) as [A|[A B]].
+      * unfold tupd in A. destruct (key_eqb (cid, seq) k) eqn:Ek.
+        -- apply key_eqb_true in Ek. subst k. right. cbn [fst snd]. lia.
+        -- now left.
+      * right. split; [exact A | lia].
+Qed.
+
+Lemma toast_write_keys m cid d m' ok : blen d < 2 ^ 40 -> toast_write m cid d = (m', ok) ->
+  forall k x, m' k = Some x -> m k = Some x \/ (fst k = cid /\ 0 <= snd k < chunk_count (blen d)).
+Proof.
+  intros Hl H k x Hk. unfold toast_write in H. pose proof (blen_nonneg d) as Hn.
+  pose proof (chunk_count_small (blen d) ltac:(lia)) as Hc.
+  assert (0 + Z.of_nat (length (chunks CHUNK d)) <= 2 ^ 32) as H2 by (rewrite chunks_count; lia).
+  destruct (write_keys (chunks CHUNK d) m cid 0 m' ok ltac:(lia) H2 H k x Hk) as [A|[A B]];
+    [now left | right]. rewrite chunks_count in B. split; [exact A | lia].
+Qed.
+
+Lemma del_chunks_sub m c n k x : del_chunks m c n k = Some x -> m k = Some x /\ ~ (fst k = c /\ snd k < n).
+Proof.
+  unfold del_chunks. destruct (Z.eqb_spec (fst k) c) as [E|E]; cbn [andb].
+  - destruct (Z.ltb_spec (snd k) n) as [L|L]; cbn [orb]; [discriminate|].
+    destruct (2 ^ 32 <=? n); [discriminate|]. intros H. split; [exact H | lia].
+  - intros H. split; [exact H | tauto].
+Qed.
+
+(* the write succeeds when no key of the chunk id is in the table *)
+Lemma toast_write_fresh m cid d : blen d < ALLOC_OK -> (forall i, m (cid, i) = None) ->
+  exists m', toast_write m cid d = (m', true).
+Proof.
+  intros Hl Hfree. pose proof (blen_nonneg d) as Hn.
+  assert (blen d < 2 ^ 40) as Hl40 by (unfold ALLOC_OK in Hl; change (2 ^ 31) with 2147483648 in Hl; change (2 ^ 40) with 1099511627776; lia).
+  apply (write_succeeds (chunks CHUNK d) m cid 0); [lia | | intros i _; apply Hfree].
+  rewrite chunks_count. pose proof (chunk_count_small (blen d)). lia.
+Qed.
